@@ -9,8 +9,8 @@ Import ListNotations.
 Local Open Scope N_scope.
 
 (* the translated functions of the start line and of the header block that the message's parse calls *)
-Record line_code := mk_lnc { lc_pc : stmt; lc_parse : lstmt; lc_valid : bexp; lc_clear : stmt }.
-Record hdr_code := mk_hdc { hc_field : fl_code; hc_parse : hstmt; hc_valid : hexp; hc_clear : hstmt }.
+Record line_code := mk_lnc { lc_pc : stmt; lc_parse : lstmt; lc_valid : bexp; lc_clear : stmt; lc_fail : bexp }.
+Record hdr_code := mk_hdc { hc_field : fl_code; hc_parse : hstmt; hc_valid : hexp; hc_clear : hstmt; hc_fail : hexp }.
 
 Record mstore := mk_ms { ms_line : store; ms_hdr : hstore; ms_valid : N }.
 Record mstate := mk_mst { m_store : mstore; m_in : str }.
